@@ -9,7 +9,7 @@ FUNCTIONS = [
 ASSUMPTIONS = [
     'part (a): import layouts written to a scratch directory (chain, diamond, same private predicate name in several files and in main, two files sharing a base name in different directories, alias of a predicate whose name is also imported from another file, two import roots, a predicate applied to its own result next to a same-named predicate in main); module bodies are seeded; the flattened single-file program is produced by the generator with its own unique names; z3 proves split == flattened on every database with <=2 rows per table',
     'part (b): CrossHair over the real ParseFile prefix loop: every ordered pair of distinct import paths with <=2 (quick) / <=3 (thorough) parts over the alphabet {a, b, util}: no exception, non-empty and distinct prefixes; claimed only on "Confirmed over all paths"',
-    'part (c): CrossHair over the real ParseFile: 15 harness functions (3 textual orders of three imports x 5 scenarios: plain, an undefined imported predicate, a redefinition in main, a circular import, a module redefining a predicate it imports after a used import), each with 3 symbolic bits (which imports are used); ParseFile costs ~12 s per path under CrossHair, so the space is kept at 8 paths per function: rejected with ParsingException exactly when the documented rules say so; this is solver-driven enumeration of a finite configuration space, claimed only on "Confirmed over all paths"',
+    'part (c): CrossHair over the real ParseFile: 15 harness functions (3 textual orders of three imports x 5 scenarios: plain, an undefined imported predicate, a redefinition in main, a circular import, a module redefining a predicate it imports after a used import), each with 5 symbolic bits (which imports are used, which carry an alias); the bits are branched on and the parse of the resulting concrete text runs natively (32 paths per function): rejected with ParsingException exactly when the documented rules say so; this is solver-driven enumeration of a finite configuration space, claimed only on "Confirmed over all paths"',
     'outside: the C++ parser; import graphs beyond the enumerated layouts',
 ]
 
@@ -142,7 +142,8 @@ SCENARIOS = ['plain', 'undefined', 'redefine', 'circular', 'modred']
 
 
 def reject_source():
-  src = REJECT_KERNEL
+  from .. import variants
+  src = REJECT_KERNEL + variants.UNTRACED
   names = []
   for order in range(3):
     for sc in SCENARIOS:
@@ -150,19 +151,22 @@ def reject_source():
       names.append(n)
       src += '''
 
-def %s(use0: bool, use1: bool, use2: bool) -> bool:
+def %s(use0: bool, use1: bool, use2: bool, alias0: bool, alias2: bool) -> bool:
   """
   post: _
   """
-  return reject_ok(use0, use1, use2, True, False, %d, %s, %s, %s, %s)
+  # the five choices are branched on here; the parse itself then runs on concrete text, natively
+  u0, u1, u2 = (True if use0 else False), (True if use1 else False), (True if use2 else False)
+  a0, a2 = (True if alias0 else False), (True if alias2 else False)
+  with untraced():
+    return reject_ok(u0, u1, u2, a0, a2, %d, %s, %s, %s, %s)
 ''' % (n, order, sc == 'undefined', sc == 'redefine', sc == 'circular', sc == 'modred')
   return src, names
 
 
 def kernel_part(out):
   src, names = reject_source()
-  kernels.run_kernels(out, 'import rejection rules', src, names, 600, replay_reject,
-                      extra_args=['--per_path_timeout', '120'])
+  kernels.run_kernels(out, 'import rejection rules', src, names, 600, replay_reject)
   depth = 3 if fw.tier() == 'thorough' else 2
   src = KERNEL_HEAD
   names = []
